@@ -26,6 +26,14 @@ CHECKS = {
              note=BASE_NOTE + "bincode and octopii are stand-ins (harness/shims): undecodable-byte handling is compared against the stand-in decoder, "
              "not the real bincode crate. HashMap order canonicalised. Full strength after fix 2d34e24 (checked_add).",
              tech="Lean 4 proof (inductive invariant over command lists) + differential correspondence + oracle", ref="§6 C18"),
+ "C03": dict(text="C03_batchRead / C03_run / C03_cap / C03_budget: for EVERY state, disk content, budget, flag and start offset (no invariant "
+             "needed) a batch read returns at most cap entries (2000 from the generated constants) and payload <= budget unless it returns "
+             "exactly one entry; lifted to every bread output of every program. The progress clause is proved separately under the engine "
+             "invariant (see C01) and is meanwhile decided by the oracle on the implementation. Executable model (Eng.batchRead) compared "
+             "with the real engine on ~900 programs per quick run, both geometries.",
+             note=BASE_NOTE + "Sequential model (one thread); every I/O succeeds; rkyv header encoding and pread/io_uring/mmap modelled as cells. "
+             "Progress clause: theorem pending, oracle + correspondence meanwhile.",
+             tech="Lean 4 proof (parser invariant by induction, any plan) + translator + differential correspondence + oracle", ref="§6 C03"),
 }
 NOT_APPLICABLE = {
  "C19": "statement about the vendored openraft core + QUIC transport + tokio runtime, none of which can be built or run offline here (tokio, quinn, rustls, futures absent from the registry); a free-standing Raft proof would be tied to nothing (DESIGN.md §6 C19)",
